@@ -38,13 +38,17 @@ def run(tier, seed, replay=None):
         if rc != 0:
             ck.aborts.append({"what": "harness exited %d: %s" % (rc, err[-300:]), "lines": []})
         ck.feed("random(n=%d)" % n, out)
+    rc, out, err = vlib.run_harness(exe, ["grid"], env={"VERIF_SEED": str(seed)})
+    ck.feed("upstream-family grid", out)
     go(500 if tier == "quick" else 20000, seed)
     if ((not ob["ok"]) or ck.disagree) and not ck.propfail and tier == "quick":
         ck.notes.append("obligation or correspondence broken: widened search")
         go(3000, seed + 1000)
     return ck.finish(
         ob,
-        rule="symmetric matrices of size 4..23 with dyadic entries: diagonally dominant, clusters of three, exactly degenerate pairs, partly negative, six orders "
+        rule="grid: the matrix family of the upstream unit test (sqrt(i) diagonal, 0.01/(i-j)^2 coupling, the doubles themselves) at sizes 16..28 with n/4..n/2 roots, "
+             "every update size, normal and lapack tolerance (the regime in which the correction vectors of one iteration are nearly dependent); random: "
+             "symmetric matrices of size 4..31 with dyadic entries: diagonally dominant, clusters of three, exactly degenerate pairs, partly negative, six orders "
              "of magnitude, block-decoupled; 1..n/4 roots; DPR / OLSEN, min / safe / max update, the four tolerances, iteration limits 2..5 and 50, search-space "
              "limits forcing restarts; BSE block matrices [[A,B],[-B,-A]] of size 6..20 in Hamiltonian mode",
         assumptions=["PARTIAL: only the status logic is proved; that a successful run returns the lowest eigenvalues is decided per run by certificates computed in "
